@@ -84,6 +84,21 @@ func (x *Ex) genFuncsMore(body *LeanFile) {
 	x.bodyStmts(body, "internal/converter", "DomConverter", "Convert", "converterConvertBody")
 	x.bodyStmts(body, "internal/domutil", "", "WalkNodes", "walkNodesBody")
 	x.bodyStmts(body, "internal/webdoc", "TextBlock", "ApplyToModel", "applyToModelBody")
+	x.bodyStmts(body, "internal/webdoc", "Text", "GenerateOutput", "textGenerateOutputBody", "C05", "C06", "C09")
+	x.bodyStmts(body, "internal/webdoc", "Table", "GenerateOutput", "tableGenerateOutputBody", "C05", "C06", "C09")
+	x.bodyStmts(body, "internal/webdoc", "Figure", "GenerateOutput", "figureGenerateOutputBody", "C05", "C06", "C09")
+	x.bodyStmts(body, "internal/webdoc", "Image", "cloneAndProcessNode", "imageCloneAndProcessBody", "C05", "C06")
+	x.bodyStmts(body, "internal/webdoc", "Image", "GenerateOutput", "imageGenerateOutputBody", "C09")
+	x.bodyStmts(body, "internal/webdoc", "Video", "GenerateOutput", "videoGenerateOutputBody", "C05", "C06")
+	x.bodyStmts(body, "internal/webdoc", "Embed", "GenerateOutput", "embedGenerateOutputBody", "C05")
+	x.bodyStmts(body, "internal/webdoc", "Tag", "GenerateOutput", "tagGenerateOutputBody", "C05")
+	x.bodyStmts(body, "internal/webdoc", "Document", "GenerateOutput", "documentGenerateOutputBody", "C09")
+	x.bodyStmts(body, "internal/webdoc", "Document", "GetImageURLs", "documentGetImageURLsBody", "C09")
+	x.bodyStmts(body, "internal/domutil", "", "CloneAndProcessList", "cloneAndProcessListBody", "C05", "C06")
+	x.bodyStmts(body, "internal/domutil", "", "CloneAndProcessTree", "cloneAndProcessTreeBody", "C04", "C05")
+	x.bodyStmts(body, "internal/domutil", "", "GetOutputNodes", "getOutputNodesBody", "C04", "C05")
+	x.bodyStmts(body, "internal/domutil", "", "MakeAllLinksAbsolute", "makeAllLinksAbsoluteBody", "C06")
+	x.bodyStmts(body, "internal/webdoc", "WebDocumentBuilder", "flushBlock", "flushBlockBody", "C06")
 }
 
 func (x *Ex) genInventory() string {
